@@ -182,6 +182,10 @@ class Props:
 class Unhashable:
     __hash__ = None
 
+class HasFields:
+    _fields = ("a",)
+    a: int = 0
+
 def func(a: int, b: str = "x") -> bool:
     return True
 
@@ -232,7 +236,7 @@ ENUMS = ["EInt", "EStr", "EMix", "EIntEnum", "EStrMix"]
 FLAVOURS = ["DC", "DCslots", "DCkw", "DCfrozen", "NT", "TD", "TDnr", "PC", "SC"]
 FLAVOUR_SUBS = ["DCSub", "DCslotsSub", "DCkwSub", "DCfrozenSub", "NTSub", "TDSub", "PCSub", "SCSub"]
 USER_MISC = ["TDpartial", "DCkwonly", "NTplain", "Union", "Optional", "Literal", "PCcall", "MyMapping", "MySeq", "Gen",
-             "FromDict", "MyABC", "MyABCempty", "Desc", "DescSet", "DescName", "Props", "Unhashable", "HasLocal.Inner"]
+             "FromDict", "MyABC", "MyABCempty", "Desc", "DescSet", "DescName", "Props", "Unhashable", "HasFields", "HasLocal.Inner"]
 BUILTIN_SUBS = ["StrSub", "IntSub", "FloatSub", "BytesSub", "ListSub", "DictSub", "SetSub", "TupleSub", "DateSub",
                 "DatetimeSub", "UUIDSub", "DecimalSub", "PathSub"]
 
@@ -402,14 +406,22 @@ def _kind_of_base(src, obj, tags):
         a = typing.get_args(obj)
         return ("union-pipe" if isinstance(obj, types.UnionType) else "union-typing") + ("-none-first" if a and a[0] is type(None) else "")
     if "subscripted" in tags and not (tags & SPECIAL_TAGS):
-        o = typing.get_origin(obj)
-        if o in _BUILTIN_TABLE:
-            return "subscripted:builtin:" + o.__qualname__
-        return "subscripted:" + (getattr(o, "__qualname__", None) or src.split("[", 1)[0])
+        return "subscripted:" + _family(typing.get_origin(obj), src.split("[", 1)[0])
     if "typing-alias" in tags and "bare" in tags:
-        o = typing.get_origin(obj)
-        return "typing-alias:" + (getattr(o, "__qualname__", None) or src)
+        return "typing-alias:" + _family(typing.get_origin(obj), src)
     return src
+
+
+def _family(o, default):
+    """Origin class of a generic, abstracted: the builtin table and the stdlib collections are one family each."""
+    import collections
+
+    if o in _BUILTIN_TABLE:
+        return "builtin"
+    if o in (collections.deque, collections.defaultdict, collections.OrderedDict, collections.Counter, collections.ChainMap,
+             types.MappingProxyType):
+        return "stdlib-collection"
+    return getattr(o, "__qualname__", None) or default
 
 
 def _base_entries():
